@@ -176,7 +176,7 @@ func lemmaFreqHasLocsRoundTrip(freq uint64, hasLocs bool) {
 //@ ensures old(s.refs) != 1 ==> $liveFiles == old($liveFiles) && $liveMaps == old($liveMaps)
 //@ ensures old(s.refs) == 1 && old(s.mm) != nil && s.f != nil ==> $liveFiles == old($liveFiles) - 1 && $liveMaps == old($liveMaps) - 1
 // a Close that is not the last one leaves the segment fully usable for the other holders: the caches are kept
-//@ ensures old(s.refs) != 1 ==> s.synIndexCache.cache == old(s.synIndexCache.cache) [C20]
+//@ ensures old(s.refs) != 1 ==> s.synIndexCache.cache == old(s.synIndexCache.cache) [C11,C20]
 //@ end
 
 // the read-only accessors of an opened segment take no part in the reference protocol: they leave the segment's
@@ -1105,7 +1105,8 @@ func lemma1HitDiscriminator(docNum, normBits uint64) {
 // the shared empty iterator (what every absent term and absent field answers with) is never handed in for re-use
 //@ requires rv != emptyPostingsIterator || rv == nil [C01,C07,C11]
 //@ ensures it != nil && (rv != nil ==> it == rv) && (rv == nil ==> fresh(it)) [C07,C11]
-//@ ensures it.postings == p && it.includeLocs == includeLocs && it.includeFreqNorm == (includeFreq || includeNorm || includeLocs)
+// (the has-locations bit lives in the freq word: asking for locations alone still decodes the freq/norm stream)
+//@ ensures it.postings == p && it.includeLocs == includeLocs && it.includeFreqNorm == (includeFreq || includeNorm || includeLocs) [C01,C07]
 //@ ensures it.currChunk == 0 && it.bytesRead == 0 || (p.normBits1Hit == 0 && p.postings != nil)
 //@ ensures len(it.nextLocs) == 0 && len(it.nextSegmentLocs) == 0
 //@ ensures p.normBits1Hit != 0 ==> it.normBits1Hit == p.normBits1Hit && it.all == nil && it.Actual == nil && it.ActualBM == nil
